@@ -133,6 +133,7 @@ struct Exec<'a> {
     step: usize,
     c01_valid: bool,
     tape_positions: Vec<u64>,
+    prop: &'static str,
 }
 
 fn v(property: &'static str, class: String, step: usize, detail: String) -> Violation {
@@ -140,6 +141,19 @@ fn v(property: &'static str, class: String, step: usize, detail: String) -> Viol
 }
 
 impl<'a> Exec<'a> {
+    /// When C01 is being checked, a deviation that belongs to another property is dropped and the run
+    /// goes on: the key-level liveness model of C01 stays valid when, say, a union has merged the
+    /// wrong number of copies (a C06 matter), and the false negative that leads to only shows after a
+    /// later delete.
+    fn should_stop(&mut self) -> bool {
+        if self.prop == "C01" {
+            self.viol.retain(|x| x.property == "C01");
+        }
+        // (for the class-model properties the run ends at the first deviation of any kind: their
+        // oracles compare with the model, which is out of step from then on)
+        !self.viol.is_empty()
+    }
+
     fn class_prop(&self) -> &'static str {
         match self.case.kind {
             FKind::Cuckoo { .. } => "C14",
@@ -644,7 +658,7 @@ impl<'a> Exec<'a> {
         if case.hasher.is_storm() {
             self.stats.fault("hash_storm");
         }
-        if !self.derive_classes() || !self.viol.is_empty() {
+        if !self.derive_classes() || self.should_stop() {
             return;
         }
         let mut f = AnyFilter::build(&case.kind, case.hasher, case.rng_seed, &case.tape);
@@ -668,7 +682,7 @@ impl<'a> Exec<'a> {
                         self.run_position_probe(&m, *k);
                     }
                     let (nm, after) = self.do_insert(&mut f, &m, &prev, *k, "");
-                    if !self.viol.is_empty() {
+                    if self.should_stop() {
                         return;
                     }
                     if let Some(nm) = nm {
@@ -711,14 +725,14 @@ impl<'a> Exec<'a> {
                     }
                     let after = self.snap(&f);
                     self.check(&m, &after, &format!("delete({}) = {}", k, got), Mode::Normal);
-                    if !self.viol.is_empty() {
+                    if self.should_stop() {
                         return;
                     }
                     prev = after;
                 }
                 FOp::Union(spec) => {
                     let (nm, after) = self.do_union(&mut f, &m, &prev, spec, "", true);
-                    if !self.viol.is_empty() {
+                    if self.should_stop() {
                         return;
                     }
                     if let Some(nm) = nm {
@@ -730,7 +744,7 @@ impl<'a> Exec<'a> {
                     let mut g = f.fork();
                     self.stats.fault("fork");
                     let _ = self.do_union(&mut g, &m, &prev, spec, "on a clone: ", true);
-                    if !self.viol.is_empty() {
+                    if self.should_stop() {
                         return;
                     }
                 }
@@ -741,7 +755,7 @@ impl<'a> Exec<'a> {
                             g.set_salt(1 + s);
                             let _ = self.do_insert(&mut g, &m, &prev, case.universe[ki], "on a clone: ");
                             g.set_salt(0);
-                            if !self.viol.is_empty() {
+                            if self.should_stop() {
                                 return;
                             }
                         }
@@ -815,7 +829,7 @@ impl<'a> Exec<'a> {
                     self.c01_valid = true;
                     let after = self.snap(&f);
                     self.check(&m, &after, "clear()", Mode::AfterClear);
-                    if !self.viol.is_empty() {
+                    if self.should_stop() {
                         return;
                     }
                     prev = after;
@@ -828,7 +842,7 @@ impl<'a> Exec<'a> {
             }
             if is_cuckoo && self.step % 16 == 0 {
                 self.check_multiplicity(&f, &m, "C14", "cuckoo/multiplicity-mismatch".into(), "checkpoint");
-                if !self.viol.is_empty() {
+                if self.should_stop() {
                     return;
                 }
             }
@@ -1078,6 +1092,7 @@ impl Scenario for S1 {
             step: 0,
             c01_valid: true,
             tape_positions: case.tape.iter().map(|t| t.0).collect(),
+            prop,
         };
         let r = guarded(|| ex.body());
         if let Caught::LibPanic(loc, msg) = r {
